@@ -542,8 +542,18 @@ def replay_real(case):
             else:
                 lo, hi = rng_si[k]
                 phys[a] = float(np.exp(rng.uniform(np.log(lo), np.log(hi))))
+        near = None
         if 'energy_transfer' in fname:
             phys['tof'] = 1.0  # well above t0
+            if trial >= 4 and all(d == 'float64' for d in dts):
+                # arrival shortly after the flight time of the fixed-energy leg: whether the result is NaN must not depend on
+                # the unit the time is written in (values are compared with a tolerance that follows the cancellation in t - t0)
+                fixed = 'L1' if 'direct' in fname else 'L2'
+                en_ = phys['incident_energy' if 'direct' in fname else 'final_energy']
+                t0_ = phys[fixed] * (float(sc.constants.m_n.value) / (2 * en_)) ** 0.5  # the constant the kernel uses
+                near = [6e-10, 2e-11, 1e-7, 3e-5][trial - 4]
+                phys['tof'] = t0_ + near
+                near = near / t0_
 
         def call(units):
             kw = {}
@@ -589,6 +599,11 @@ def replay_real(case):
                     continue
                 b = np.asarray(rv.values, dtype=float)
                 tol = 3e-5 if 'float32' in dts else 1e-10
+                if near is not None:
+                    tol = max(tol, 1e-12 / near)  # scipp's unit conversions agree to about 4e-14 between unit systems
+                    if not np.array_equal(np.isnan(a), np.isnan(b)):
+                        bad.append(f'{units}: NaN for tof = t0 (1 + {near:.3g}) in one unit system, a number in the other: {a} vs {b}')
+                        continue
                 if not np.allclose(a, b, rtol=tol, atol=tol * max(1e-300, float(np.max(np.abs(b)))), equal_nan=True):
                     bad.append(f'{units}: {a} vs {b}')
                 if data is not None and case['kind'] == 'dtype':
